@@ -350,6 +350,20 @@ class Interp:
                 raise Unsupported("more than %d traces for %s" % (self.MAX_TRACES, func.qual))
         return traces
 
+    def apply(self, fn, pos, kw=None):
+        """Value of calling an abstract callable (a function value, a closure returned by a factory, a lambda) on the given
+        arguments; the evaluation must not fork."""
+        self.choices, self.ptr, self.pending = [], 0, []
+        self.trace = Trace()
+        self.depth = 0
+        try:
+            v = self.call(fn, list(pos), dict(kw or {}), ast.Constant(value=None, lineno=0, col_offset=0), {})
+        except RaiseEx as e:
+            return ("raise", e.exc)
+        if self.pending:
+            raise Unsupported("evaluation forks on %r" % (self.trace.decisions[-1][0],))
+        return ("return", v)
+
     def decide(self, value, node):
         t = self.truth(value)
         if t is not None:
@@ -661,6 +675,8 @@ class Interp:
             if isinstance(base, (dict, list)):
                 base[key] = v
                 self.trace.events.append(("setitem", base, key, v, target))
+            elif isinstance(base, Opaque) and base.attrs and self._class_method(base.kind, "__setitem__") is not None:
+                self.call_func(self._class_method(base.kind, "__setitem__"), [key, v], {}, self_obj=base, node=target)
             elif isinstance(base, (Opaque, Sym)):
                 self.trace.events.append(("setitem", base, key, v, target))
             else:
@@ -724,7 +740,7 @@ class Interp:
         if node.id in ("str", "int", "list", "tuple", "dict", "set", "bytes", "float", "bool", "object"):
             return TypeVal(node.id)
         if node.id in ("isinstance", "len", "map", "locals", "hasattr", "any", "all", "sorted", "enumerate",
-                       "range", "zip", "getattr", "iter", "print", "min", "max", "repr", "type", "ord", "chr", "hex", "setattr", "delattr", "next"):
+                       "range", "zip", "getattr", "iter", "print", "min", "max", "repr", "type", "ord", "chr", "hex", "setattr", "delattr", "next", "vars", "callable", "sum", "abs"):
             return Builtin(node.id)
         if node.id in ("ValueError", "TypeError", "KeyError", "NotImplementedError", "Exception", "StopIteration"):
             return TypeVal(node.id)
@@ -1355,7 +1371,7 @@ class Interp:
                 return o
             if isinstance(v, RepList):
                 return v
-            if v is None or isinstance(v, (bool, int, float)):
+            if v is None or isinstance(v, (bool, int, float, Callback, FuncVal, LambdaVal, Builtin)):
                 raise RaiseEx("TypeError", "'%s' object is not iterable" % type(v).__name__, node)
             raise Unsupported("list(%r)" % (v,))
         if name == "tuple":
@@ -1410,6 +1426,10 @@ class Interp:
                 if isinstance(v, (list, tuple)) and any(isinstance(x, Star) for x in v):
                     return Sym("len(spliced)", "int", None)
                 return len(v)
+            if isinstance(v, Opaque) and v.attrs and self._class_method(v.kind, "__len__") is not None:
+                return self.call_func(self._class_method(v.kind, "__len__"), [], {}, self_obj=v, node=node)
+            if isinstance(v, (StreamVal, HostIter)):
+                raise RaiseEx("TypeError", "object of type 'generator' has no len()", node)
             if isinstance(v, (Opaque, RepList, Sym)):
                 nm = "len(%s)" % _nm(v)
                 if isinstance(v, Opaque):
@@ -1457,6 +1477,13 @@ class Interp:
             raise Unsupported("%s(%r)" % (name, v))
         if name == "sorted" and isinstance(pos[0], (list, tuple)) and all(isinstance(x, (str, int)) for x in pos[0]) and not kw:
             return sorted(pos[0])
+        if name in ("max", "min") and len(pos) >= 2 and not kw and all(isinstance(x, (int, float, str)) and not isinstance(x, bool) for x in pos) \
+                and len({type(x) is str for x in pos}) == 1:
+            return max(pos) if name == "max" else min(pos)
+        if name == "sum" and len(pos) >= 1 and isinstance(pos[0], (list, tuple)) and all(isinstance(x, (int, float)) for x in pos[0]):
+            return sum(pos[0], *pos[1:])
+        if name == "abs" and pos and isinstance(pos[0], (int, float)):
+            return abs(pos[0])
         if name in ("sorted", "max", "min") and len(pos) == 1 and isinstance(pos[0], (list, tuple, dict)) and set(kw) <= {"key", "reverse"}:
             items = list(pos[0])
             keyf = kw.get("key")
@@ -1504,6 +1531,11 @@ class Interp:
                     return o.attrs[a]
                 return Sym("%s.%s" % (o.name, a), "any", None)
             raise Unsupported("getattr(%r, %r)" % (o, a))
+        if name == "vars" and len(pos) == 1 and isinstance(pos[0], Opaque):
+            # the instance dictionary itself: stores through it are stores into the object
+            return pos[0].attrs
+        if name == "callable" and pos:
+            return isinstance(pos[0], (Callback, FuncVal, LambdaVal, Builtin, TypeVal))
         if name == "setattr":
             o, a, v = pos[0], pos[1], pos[2]
             if isinstance(o, (Opaque, Sym)) and isinstance(a, str):
@@ -1770,7 +1802,7 @@ class Interp:
         if isinstance(base, Opaque) and base.attrs and base.name not in ("self", "cls") and base.kind not in ("obj", "iter", "list", "dict", "set"):
             # an object of a package class carrying its fields: run the class's own method on it
             m_ = self._class_method(base.kind, attr)
-            if m_ is not None and not any(isinstance(d, ast.Name) and d.id in ("property", "staticmethod", "classmethod") for d in m_.node.decorator_list):
+            if m_ is not None and not any(isinstance(d, ast.Name) and d.id == "property" for d in m_.node.decorator_list):
                 q_ = m_.qual
                 if q_ in self.summaries:
                     return self.summaries[q_](self, [base] + list(pos), kw, node)
